@@ -129,6 +129,41 @@ def confirm_english_mask(check, r):
     return False
 
 
+def confirm_moved_selection(check, r):
+    """Native: phonetic method, a word with several candidates, then a punctuation key pressed with every selection byte inside the list:
+    the pre-edit text of every candidate is the encoder's output for that candidate (ANSI on) / the candidate (ANSI off)."""
+    scs, meta = [], []
+    for ansi in (True, False):
+        for word in ("ami", "sesh", "k"):
+            for sel in (0, 1, 2):
+                for p in (",", ".", "?"):
+                    cfg = dict(PHON, opts={"phonetic_suggestion": True, "ansi": ansi})
+                    ks = obl_keys()
+                    scs.append({"steps": [{"op": "new", "config": cfg}] + [{"op": "key", "key": ks[ch], "sel": 0} for ch in word] + [{"op": "key", "key": ks[p], "sel": sel}]})
+                    meta.append((ansi, word, sel, p))
+    out = run_replay(scs)
+    second, m2 = [], []
+    for (ansi, word, sel, p), sc, o in zip(meta, scs, out):
+        last = o["results"][-1]
+        sg = last.get("suggestion", {})
+        if "panic" in last or sg.get("kind") != "full" or sel >= sg.get("len", 0):
+            continue
+        second.append({"steps": [{"op": "bijoy", "text": t} for t in sg["list"]]})
+        m2.append((ansi, word, sel, p, sc, sg))
+    for (ansi, word, sel, p, sc, sg), o in zip(m2, run_replay(second) if second else []):
+        want = [x.get("text") for x in o["results"]] if ansi else sg["list"]
+        if sg.get("preedit") != want:
+            return dict(key="suggestion read-out", what="phonetic, ANSI %s: %r typed, then %r pressed with selection %d: the list is %s, the pre-edit texts are %s, %s" % (
+                ansi, word, p, sel, sg["list"], sg.get("preedit"), ("the encoder gives %s" % want) if ansi else "not the candidates"),
+                replay=dict(scenario=sc, observed=sg))
+    return False
+
+
+def obl_keys():
+    import obl_assembly
+    return obl_assembly.char_keys()
+
+
 def confirm_accessors(check, r):
     """Read-out of Suggestion values built through the public constructors."""
     scs = []
@@ -300,6 +335,7 @@ HARNESSES = {
     "k_rank_sort_unstable_6": dict(confirm=confirm_playback("k_rank_sort_unstable_6"), bound="6 ranks, real slice::sort_unstable"),
     "k_rank_sort_stability": dict(confirm=confirm_playback("k_rank_sort_stability"), bound="4 dictionary ranks with symbolic distances"),
     "k_suggestion_full_accessors": dict(confirm=confirm_accessors, bound="list of 1-2 candidates, symbolic selection/ansi/index; encoder stubbed by a tagging function"),
+    "k_suggestion_selection_moved": dict(confirm=confirm_moved_selection, bound="list of 2 candidates, selection at construction and after the move, ansi and index symbolic; encoder stubbed by a tagging function"),
     "k_suggestion_single_accessors": dict(confirm=confirm_accessors, bound="single-string and empty suggestion, symbolic ansi; encoder stubbed"),
     "k_ffi_suggestion_full": dict(confirm=confirm_playback("k_ffi_suggestion_full"), bound="list suggestion with 2 candidates, 2 symbolic non-NUL ASCII bytes, symbolic selection; CBMC pointer checks on"),
     "k_ffi_suggestion_single": dict(confirm=confirm_playback("k_ffi_suggestion_single"), bound="single suggestion, empty or one symbolic byte; pointer checks on"),
